@@ -19,7 +19,7 @@ LEVEL = "exploration"
 RULE = ("coordinates: tracer x ice {Specialized x (Antarctic, Arasim, Greenland), Basic x Antarctic, Uniform x UniformIce, Layered x (U|U, A|A)}, "
         "signal model {ARZ, AVZ, ZHS}, generator {List 1 particle, List 3 particles incl. a below-threshold weight, List with a particle in the shadow zone ahead of one that is not, Cylindrical, Rectangular "
         "(owned randomness), FileGenerator}, offcone_max {None, 40, 0.5, 0}, weight_min {None, 0.1, (0.5,0.25), 0, exactly a particle's weight}, attenuation_interpolation {0.1, None}, "
-        "writer {none, recording stub, real HDF5}, triggers {None, function, dict, dict whose global coincidence fails while a component fires}, antenna set {2, 1, 3 antennas incl. one in the air}; all "
+        "writer {none, recording stub, real HDF5}, triggers {None, function, dict, dict whose global coincidence fails while a component fires}, antenna set {2, 1, 3 antennas incl. one in the air}, time grid of 96 / 97 samples; all "
         "configurations within deviation bound 2 (quick) / 3 (thorough) of the base; two consecutive events per configuration; "
         "distinct_nontrivial = distinct configurations in which at least one non-empty signal was delivered")
 ASSUMPTIONS = ["the oracle recomputes each delivered signal with the same public building blocks (tracer, signal model, propagate, apply_response); "
@@ -38,6 +38,7 @@ COORDS = {
     "writer": ["none", "stub", "hdf5"],
     "triggers": ["none", "func", "dict", "dict_veto"],
     "antennas": ["two", "one", "three_air"],
+    "grid": [96, 97],          # number of samples of the configured time grid (even / odd)
 }
 NAMES = list(COORDS)
 DT = 2.0 ** -31
@@ -218,6 +219,7 @@ def _passes(p, wmin):
 
 
 def evaluate(case):
+    TIMES = (np.arange(COORDS["grid"][case["cfg"].get("grid", 0)]) - 24) * DT
     from pyrex.kernel import EventKernel
     from pyrex.io import File
     from pyrex.signals import Signal
